@@ -16,6 +16,7 @@ void* iglue_mem_object(void* inst);
 void* iglue_tab_object(void* inst);
 void iglue_free_instance(void* inst);
 void iglue_env_free(InstEnv* e);
+extern int g_unknown_lookups;
 extern int g_hook_calls; extern unsigned g_hook_last_arg; extern void* g_hook_last_inst;
 #ifdef __cplusplus
 }
